@@ -619,6 +619,9 @@ func (t *tree) parseAttrs(allowedNames ...string) map[string]string {
 			if !inStringSlice(tok.val, allowedNames) {
 				t.unexpected(tok, fmt.Sprintf("attributes. allowed: %v", allowedNames))
 			}
+			if _, ok := result[tok.val]; ok {
+				t.errorf("attribute %q is given twice", tok.val)
+			}
 			t.expect(itemEquals, "attribute")
 			var attrval = t.expect(itemString, "attribute")
 			var err error
@@ -890,7 +893,13 @@ func (t *tree) parseQuotedExpr(pos ast.Pos, str string) ast.Node {
 			t.errorf("in expression %q: %v", str, e)
 		}
 	}()
-	return tt.parseExpr(0)
+	var expr = tt.parseExpr(0)
+	// the expression is the whole attribute: whatever follows it would be
+	// dropped unseen (the scanner reports the end of its input as an unclosed tag).
+	if tok := tt.next(); tok.typ != itemError || tok.val != "unclosed tag" {
+		tt.unexpected(tok, "expression (expected its end)")
+	}
+	return expr
 }
 
 var precedence = map[itemType]int{
